@@ -132,3 +132,18 @@ pub fn ok_hash_get(m: &mut HashMap<usize, usize>) -> Option<usize> {
         None
     }
 }
+
+
+// ---- hidden per-thread floating-point state (R-NOSTATIC)
+#[cfg(target_arch = "x86_64")]
+#[allow(deprecated)]
+pub unsafe fn ctl_set_mxcsr() {
+    use std::arch::x86_64::{_mm_getcsr, _mm_setcsr};
+    _mm_setcsr(_mm_getcsr() | 0x8040);
+}
+#[cfg(target_arch = "x86_64")]
+pub unsafe fn ctl_inline_asm() -> u64 {
+    let x: u64;
+    std::arch::asm!("mov {}, 5", out(reg) x);
+    x
+}
